@@ -16,6 +16,19 @@ from . import flow
 from .facts import strip, walk, kids
 
 
+def _type_base(t):
+    """Base name of a type without template arguments and scopes (template arguments may spell lambdas with their
+    source position: never part of a canonical form)."""
+    import re
+    t = t.replace("const ", "").strip()
+    prev = None
+    while prev != t:
+        prev = t
+        t = re.sub(r"<[^<>]*>", "", t)
+    t = re.sub(r"\(lambda at [^)]*\)", "<lambda>", t)
+    return t.split("::")[-1].strip()
+
+
 # helpers that rules name explicitly (their call text is part of a template)
 NO_INLINE = set()
 
@@ -191,11 +204,10 @@ class Canon:
             name = c["n"] if c else self.c(s["c"][0])
             return "%s(%s)" % (name, ", ".join(self.c(a) for a in s["c"][1:]))
         if k in ("CXXConstructExpr", "CXXTemporaryObjectExpr"):
-            t = self.fn.facts.T(s.get("t")).split("::")[-1]
-            return "%s{%s}" % (t.split("<")[0], ", ".join(self.c(a) for a in s.get("c") or []))
+            return "%s{%s}" % (_type_base(self.fn.facts.T(s.get("t"))), ", ".join(self.c(a) for a in s.get("c") or []))
         if k == "InitListExpr":
-            t = self.fn.facts.T(s.get("t")).split("::")[-1]
-            return "%s{%s}" % (t.split("<")[0], ", ".join(self.c(a) for a in s.get("c") or [] if a is not None))
+            return "%s{%s}" % (_type_base(self.fn.facts.T(s.get("t"))),
+                               ", ".join(self.c(a) for a in s.get("c") or [] if a is not None))
         if k in ("CXXFunctionalCastExpr", "CStyleCastExpr", "CXXStaticCastExpr"):
             return self.c(s["c"][0])
         if k in ("BinaryOperator", "CompoundAssignOperator"):
